@@ -193,3 +193,269 @@ class Agg:
         for k, (why, line) in self.und.items():
             self.rep.undecided(self.rule, '%s:%s:%s' % (self.unit, self.fn, k), why,
                                where='%s:%d' % (self.unit, line or default_line))
+
+
+# ---------------------------------------------------------------------------------------------
+# R15.9: the link command of a concrete command line (driver interpreted from main() to the
+# argument vector handed to the process launcher)
+# ---------------------------------------------------------------------------------------------
+def _tok_state(ctx):
+    if not hasattr(ctx, 'c15_strtok'):
+        ctx.c15_strtok = [None]
+    return ctx.c15_strtok
+
+
+def _tokenise(it, pos, delim):
+    """one strtok step on the writable buffer position pos=(arr, i): (token pointer | 0, new position) or None
+    when the buffer is not a concrete NUL-terminated string"""
+    from .interp import _Ref, ElemPlace
+    arr, i = pos
+    el = arr.elems
+
+    def ch(k):
+        if k >= len(el) or not isinstance(el[k], int) or isinstance(el[k], bool):
+            raise ValueError
+        return el[k] & 0xff
+    try:
+        while ch(i) != 0 and chr(ch(i)) in delim:
+            i += 1
+        if ch(i) == 0:
+            return 0, (arr, i)
+        start = i
+        while ch(i) != 0 and chr(ch(i)) not in delim:
+            i += 1
+        if ch(i) != 0:
+            ElemPlace(arr, i).set(it, 0)
+            return _Ref(ElemPlace(arr, start)), (arr, i + 1)
+        return _Ref(ElemPlace(arr, start)), (arr, i)
+    except ValueError:
+        return None
+
+
+def _buf_pos(v):
+    from .interp import _Ref, ElemPlace, Arr
+    if isinstance(v, _Ref) and isinstance(v.place, ElemPlace) and isinstance(v.place.arr, Arr) and isinstance(v.place.i, int):
+        return (v.place.arr, v.place.i)
+    return None
+
+
+def tokeniser_models():
+    """ISO C strtok / POSIX strtok_r on writable concrete buffers; anything else stays an opaque call (so an unknown
+    shape ends as `not concrete`, never as a wrong token)"""
+    from . import lib_c14 as L
+    from .interp import _Ref
+
+    def m_strtok(it, ctx, n, args):
+        d = L.cstr(args[1]) if len(args) > 1 else None
+        st = _tok_state(ctx)
+        s = args[0] if args else None
+        pos = st[0] if (isinstance(s, int) and not isinstance(s, bool) and s == 0) else _buf_pos(s)
+        r = _tokenise(it, pos, d) if (d is not None and pos is not None) else None
+        if r is None:
+            return L._opaque_call(it, ctx, n, args)
+        st[0] = r[1]
+        return r[0]
+
+    def m_strtok_r(it, ctx, n, args):
+        d = L.cstr(args[1]) if len(args) > 2 else None
+        save = args[2] if len(args) > 2 else None
+        if d is None or not isinstance(save, _Ref):
+            return L._opaque_call(it, ctx, n, args)
+        s = args[0]
+        if isinstance(s, int) and not isinstance(s, bool) and s == 0:
+            try:
+                pos = _buf_pos(save.place.get(it))
+            except Exception:
+                pos = None
+        else:
+            pos = _buf_pos(s)
+        r = _tokenise(it, pos, d) if pos is not None else None
+        if r is None:
+            return L._opaque_call(it, ctx, n, args)
+        from .interp import ElemPlace
+        save.place.set(it, _Ref(ElemPlace(r[1][0], r[1][1])))
+        return r[0]
+    return {'strtok': m_strtok, 'strtok_r': m_strtok_r, '__strtok_r': m_strtok_r}
+
+
+TMP_CREATE = ('mkstemp', 'mkostemp', 'mkstemps', 'mkostemps', 'mkdtemp', 'tmpfile', 'tmpnam', 'tmpnam_r', 'tempnam', 'mktemp')
+
+
+def _m_strarray_push_store(it, ctx, n, args):
+    """strarray_push on a list object: the elements are kept (an all-zero StringArray grows a data array), so that lists
+    filled by the interpreted option parser are read back by main and by the link-command builder"""
+    from .interp import Obj, Arr, View
+    arr = args[0]
+    val = args[1] if len(args) > 1 else None
+    ctx.emit('call', 'strarray_push', args, n.line, None)
+    if isinstance(arr, Obj):
+        old = it.read_field(arr, 'len')
+        if isinstance(old, View):
+            old = it.force(old)
+        d = arr.fields.get('data')
+        if isinstance(old, int) and not isinstance(old, bool):
+            if not isinstance(d, Arr):
+                d = Arr([0] * old, label=(arr.label or 'list') + '.data')
+                arr.fields['data'] = d
+            while len(d.elems) < old + 2:
+                d.elems.append(0)
+            d.elems[old] = val
+            d.elems[old + 1] = 0
+        arr.fields['len'] = it.arith('+', old, 1, 'int')
+    return None
+
+
+def _zero_statics(u):
+    """file-scope variables without initialiser are zero at program start (records: all-zero objects)"""
+    from .interp import Obj
+    glob = {}
+    for name, g in u.globals.items():
+        if 'init' in g.d:
+            continue
+        t = (g.dtype or g.type or '').replace('struct ', '').strip()
+        if t.endswith(']'):
+            continue
+        if t in u.records:
+            glob[name] = (lambda nm, tt: (lambda ctx: Obj(tt, lazy=False, label='g:' + nm)))(name, t)
+        else:
+            glob[name] = 0
+    return glob
+
+
+class UnitEdges:
+    """direct-call edges of one unit (the `edges` part of lib_c14.CallGraph, without loading the other units)"""
+
+    def __init__(self, u):
+        self.edges = {}
+        for f, fd in u.functions.items():
+            e = self.edges.setdefault(f, set())
+            for n in fd.walk():
+                if n.kind == 'CallExpr' and n.callee():
+                    e.add(n.callee())
+
+
+class LinkDriver:
+    """Runs main() of main.c on concrete command lines with the real option parser and the real link-command
+    builder.  Interpreted: main, parse_args, run_linker and every function of main.c that (transitively) calls
+    nothing but modelled string/list functions, diagnostics, each other and the cut points.  Cut points
+    (recorded as events, never entered): the stage functions run_cc1 / assemble, the temporary-name creator, the
+    process launcher run_subprocess, and parameterless functions returning a string (probes of the installation:
+    library directories)."""
+    KEEP = ('main', 'parse_args', 'run_linker')
+    STAGES = ('run_cc1', 'assemble')
+    LAUNCH = 'run_subprocess'
+
+    def __init__(self, P, u):
+        from . import lib_c14 as L
+        from .build import AnalysisBroken
+        self.P, self.u, self.L = P, u, L
+        for f in self.KEEP + self.STAGES + (self.LAUNCH,):
+            if f not in u.functions:
+                raise AnalysisBroken('main.c: anchor function %s vanished' % f)
+        eg = UnitEdges(u)
+        self.tmp_fns = sorted(f for f in u.functions if eg.edges[f] & set(TMP_CREATE))
+        if not self.tmp_fns:
+            raise AnalysisBroken('main.c: no function creates temporaries with mkstemp (anchor vanished)')
+        probes = set()
+        for f, fd in u.functions.items():
+            t = (fd.dtype or fd.type or '').replace(' ', '')
+            if t in ('char*(void)', 'char*()') and f not in self.KEEP:
+                probes.add(f)
+        self.probes = probes
+        cuts = set(self.STAGES) | set(self.tmp_fns) | {self.LAUNCH} | probes
+        ok_ext = set(L.STRING_FNS) | set(L.ERROR_FNS) | {'strerror', '__errno_location', 'strarray_push', '__assert_fail'} | set(tokeniser_models())
+
+        def pure(f, seen):
+            if f in ok_ext or f in cuts:
+                return True
+            if f not in u.functions:
+                return False
+            if f in seen:
+                return True
+            seen.add(f)
+            return all(pure(g, seen) for g in eg.edges.get(f, ()))
+        self.interpreted = set(self.KEEP) | set(f for f in u.functions if f not in cuts and pure(f, set()))
+        self.opaque = [f for f in u.functions if f not in self.interpreted and f not in self.tmp_fns and f != self.LAUNCH]
+
+        def m_tmp(it, ctx, n, args):
+            from .interp import Obj
+            s = Obj(None, lazy=False, label=ctx.fresh('tmp'))
+            ctx.emit('call', 'create_tmpfile', args, n.line, s)
+            return s
+
+        def m_launch(it, ctx, n, args):
+            ctx.emit('call', self.LAUNCH, args, n.line, None)
+            return None
+        self.models = dict(L.string_models())
+        self.models.update(tokeniser_models())
+        self.models['strarray_push'] = _m_strarray_push_store
+        for t in self.tmp_fns:
+            self.models[t] = m_tmp
+        self.models[self.LAUNCH] = m_launch
+
+    def run(self, words, max_paths=200):
+        """[(ctx, out)] of main(argc, argv) for the command line `words` (words[0] = program name)"""
+        from .interp import Arr, _Ref, ElemPlace
+        L = self.L
+        it = L.make_interp(self.P, self.u, opaque=self.opaque, extra_models=self.models, globals_=_zero_statics(self.u), loop_limit=2)
+
+        def mk(ctx):
+            argv = Arr([L.cbuf(x, 'argv') for x in words] + [0], label='argv')
+            return [len(words), _Ref(ElemPlace(argv, 0))]
+        return it.explore('main', mk, max_paths=max_paths)
+
+    def link_command(self, ctx):
+        """The argument vector of the ld process of one path: (items, line, None) | (None, line, 'unreadable' | 'count:<n>').
+        item = ('str', s) literal / command-line word; ('obj-of', name) temporary holding the assembled
+        input `name`; ('asm-of', name) temporary holding compiler output of `name`; ('tmp', k) other temporary;
+        ('file', basename) path built from an installation directory; ('end',) terminating NULL; ('?', repr)"""
+        L = self.L
+        evs = L.calls_of(ctx)
+        cc1_out, as_out, fmts, tmps = {}, {}, {}, {}
+        for e in evs:
+            if e[1] == 'create_tmpfile':
+                tmps[id(e[4])] = len(tmps)
+            elif e[1] == 'run_cc1' and len(e[2]) >= 4:
+                cc1_out[id(e[2][3])] = L.cstr(e[2][2])
+            elif e[1] == 'assemble' and len(e[2]) >= 2:
+                src = e[2][0]
+                nm = L.cstr(src)
+                if nm is None and id(src) in cc1_out:
+                    nm = cc1_out[id(src)]
+                as_out[id(e[2][1])] = nm
+            elif e[1] == 'format' and len(e) > 4 and e[2]:
+                fmts[id(e[4])] = L.cstr(e[2][0])
+        lds = []
+        from .interp import Arr, _Ref, ElemPlace
+        for e in evs:
+            if e[1] != self.LAUNCH or not e[2]:
+                continue
+            a = e[2][0]
+            if isinstance(a, _Ref) and isinstance(a.place, ElemPlace) and a.place.i == 0:
+                a = a.place.arr
+            if not isinstance(a, Arr):
+                return None, e[3], 'unreadable'
+            if a.elems and L.cstr(a.elems[0]) == 'ld':
+                lds.append((a, e[3]))
+        if len(lds) != 1:
+            return None, None, 'count:%d' % len(lds)
+        a, line = lds[0]
+        items = []
+        for x in a.elems:
+            s = L.cstr(x)
+            if s is not None:
+                items.append(('str', s))
+            elif isinstance(x, int) and not isinstance(x, bool) and x == 0:
+                items.append(('end',))
+                break
+            elif id(x) in as_out and as_out[id(x)] is not None:
+                items.append(('obj-of', as_out[id(x)]))
+            elif id(x) in cc1_out and cc1_out[id(x)] is not None:
+                items.append(('asm-of', cc1_out[id(x)]))
+            elif id(x) in tmps:
+                items.append(('tmp', tmps[id(x)]))
+            elif id(x) in fmts and fmts[id(x)] is not None:
+                items.append(('file', fmts[id(x)].rsplit('/', 1)[-1] if '/' in fmts[id(x)] else fmts[id(x)]))
+            else:
+                items.append(('?', repr(x)))
+        return items, line, None
